@@ -92,14 +92,12 @@ theorem backrefGen_term (ctx : Ctx) (g : Nat) (p : Nat) (st : St) (hm : MarkOk b
   · split
     · split
       · exact .once hm
-      · split
-        · exact .nil _ (hm.setPanic (by decide))
-        · simp only
-          split
+      · simp only
+        split
+        · exact .nil _ hm
+        · split
+          · exact .once hm
           · exact .nil _ hm
-          · split
-            · exact .once hm
-            · exact .nil _ hm
     · exact .once hm
 
 end leaves
